@@ -29,6 +29,10 @@ class DOT(Entity):
     def step(self, time: float) -> tuple[float, list[tuple[str, float]]]:
         if self.period_time_left > time:
             self.period_time_left -= time
+            self.current = {
+                name: (damage, lasting_time - time)
+                for name, (damage, lasting_time) in self.current.items()
+            }
             return 0, []
 
         left_time = time - self.period_time_left
